@@ -53,6 +53,7 @@ fn per_slot_wide(i: u8, k: u8, v: &mut Vec<Op>) {
     v.push(ShrinkFit(i));
     v.push(ExtendChars(i));
     v.push(ExtendStrs(i));
+    v.push(ExtendFiltered(i));
     for j in 0..k {
         v.push(ExtendLean(i, j));
     }
